@@ -84,6 +84,39 @@ def run(ctx):
                 stats['different'] = stats.get('different', 0) + 1
             else:
                 stats['same'] = stats.get('same', 0) + 1
+    # tie of the shared-object compile theorems (Props/C20Compile.lean: C20_compileInto_extends, C20_own_pieces,
+    # C20_compile_correct_shared, C20_compileAll_correct) to the real build: sequences of programs built into ONE object by the
+    # real lexer+parser+builder (DUMP2) must equal the chained structured compiler compileInto (COMPILE2), line for line
+    if drv_ok:
+        from gen import compilegen
+        roots = [(root, src) for src, ast, root, stream in progs if root is not None and len(src) < 120]
+        rnd2 = random.Random(ctx.seed + 202)
+        seqs2 = []
+        small = [r for r in roots if True][:30 if ctx.tier == 'quick' else 80]
+        for x in small:
+            for y in small:
+                seqs2.append([x, y])
+        for _ in range(1500 if ctx.tier == 'quick' else 20000):
+            seqs2.append([rnd2.choice(roots) for _ in range(rnd2.choice([2, 2, 3]))])
+        comp, dump = [], []
+        for k, sq in enumerate(seqs2):
+            comp.append(['COMPILE2', 'q%d' % k] + [compilegen.program_term(r) for r, _ in sq])
+            for st in progsuite.STORES:
+                dump.append(['DUMP2', f'q{k}:{st}', st] + [vlib.esc(src) for _, src in sq])
+        di = vlib.run_impl(dump, 'c20dump2', per_case_s=5.0)
+        cm = vlib.run_model(comp, 'c20comp2')
+        nd = 0
+        for c in comp:
+            for st in progsuite.STORES:
+                r, m = di.get(f'{c[1]}:{st}', 'missing'), cm.get(c[1], 'missing')
+                if r != m:
+                    nd += 1
+                    d = [x for x in dump if x[1] == f'{c[1]}:{st}'][0]
+                    ctx.fail('corr', d, impl=r[:500], model=m[:500], expect=m[:300], note='building these programs into one object differs from the chained structured compiler compileInto (COMPILE2 suite)')
+        stats['COMPILE2=DUMP2 sequences'] = len(comp)
+        stats['COMPILE2!=DUMP2'] = nd
+        ctx.evaluations += len(dump)
+        ctx.oblige('suite COMPILE2 (real build of several programs into one object = chained compileInto)', 'suite', nd == 0, f'{nd} difference(s)')
     ctx.rule = ('MULTI cases: sequences of 2..4 programs built into one data object in every order (fixed small set) and random sequences of generated programs, on both stores, with executions of earlier programs interleaved between the builds; '
                 'oracle: each build leaves every earlier instruction (constants rendered), every earlier jump entry unchanged and its own jumps / expression values / jump targets lie in its own ranges; each program run from its reported entry gives the same value and host-call trace as when built alone into a fresh object; distinct = distinct (store, program sequence).')
     ctx.suites = {'MULTI': len(cases), 'stand-alone RUN': len(solo), 'outcomes': stats}
